@@ -179,7 +179,12 @@ void attr_mutate(Attr &a, uint64_t seed, uint32_t fieldmask) {
 }
 
 Mac api_key_mac(int k) {
-    Mac m = {{0x02, 0xAA, 0x00, 0x00, (uint8_t)(k / 3 >> 8), (uint8_t)(k / 3)}};
+    int id = k / 3;
+    Mac m = {{0x02, 0xAA, 0x00, 0x00, (uint8_t)(id >> 8), (uint8_t)id}};
+    // every fifth mapper is an "anagram" of its predecessor: the same three 16-bit words in another order (equal word sums, word
+    // differences that cancel under XOR) - what a folded or hashed address comparison would confuse; ids 10..13 carry the difference
+    // in two words with equal deltas
+    if (id % 5 == 4) { int p = id - 1; m = Mac{{(uint8_t)(p >> 8), (uint8_t)p, 0x02, 0xAA, 0x00, 0x00}}; if (id % 10 == 9) m = Mac{{0x00, 0x00, (uint8_t)(p >> 8), (uint8_t)p, 0x02, 0xAA}}; }
     return m;
 }
 
@@ -301,7 +306,7 @@ bool plan_from_text(const std::string &text, Plan &p, std::string &err) {
 // ============================================================ port (lltdPort.h)
 static Node *node_of_ctx(void *ctx) {
     if (!g_w || !ctx) return nullptr;
-    for (auto &n : g_w->nodes) if ((void *)n.get() == ctx) return n.get();
+    for (auto &n : g_w->nodes) if (n->owns_ctx(ctx)) return n.get();
     return nullptr;
 }
 static inline bool getter_fails(Node *n, uint32_t bit) {
@@ -545,7 +550,7 @@ void sim_periodic_hello(void *iface_ctx, const void *frame, size_t len) {
     World &w = *g_w;
     TxRec tx;
     tx.node = -1;
-    for (size_t i = 0; i < w.nodes.size(); i++) if ((void *)w.nodes[i].get() == iface_ctx) tx.node = (int)i;
+    for (size_t i = 0; i < w.nodes.size(); i++) if (w.nodes[i]->owns_ctx(iface_ctx)) tx.node = (int)i;
     tx.t = w.port_now_ms(); tx.channel = 1; tx.refused = false; tx.in_tick = w.in_tick != 0;
     tx.data.assign((const uint8_t *)frame, (const uint8_t *)frame + len);
     w.log.u64(0x9E110000ull + len);
@@ -588,6 +593,15 @@ World::~World() {
     if (g_w == this) g_w = nullptr;
 }
 Mac World::station_mac(int sid) const {
+    if ((plan.mac_seed & 31) == 1 && sid < 6) {
+        // one plan in 32: the first six stations are anagrams of one another - the six orders of the same three 16-bit words
+        uint64_t x = mix64(plan.mac_seed, 998);
+        uint8_t w[3][2] = {{0x02, (uint8_t)(x >> 8)}, {(uint8_t)((x >> 16) & 0xFE), (uint8_t)(x >> 24)}, {(uint8_t)((x >> 32) & 0xFE), (uint8_t)((x >> 40) | 1)}};
+        static const int P[6][3] = {{0, 1, 2}, {0, 2, 1}, {1, 0, 2}, {1, 2, 0}, {2, 0, 1}, {2, 1, 0}};
+        Mac m;
+        for (int i = 0; i < 3; i++) { m.a[2 * i] = w[P[sid][i]][0]; m.a[2 * i + 1] = w[P[sid][i]][1]; }
+        return m;
+    }
     if ((plan.mac_seed & 7) == 0) {
         // one plan in eight: the stations are near twins - identical except for ONE byte (position drawn per plan), so that an
         // identity comparison that skips or truncates any part of the address confuses them
@@ -1150,6 +1164,17 @@ void World::exec_op(int i) {
                 if (nodes[op.a[0]]->glue) glue_set_mac(nodes[op.a[0]]->glue, m.a); // the daemon's copy of the address follows the interface
                 if (nodes[op.a[0]]->twin >= 0 && nodes[nodes[op.a[0]]->twin]->glue) glue_set_mac(nodes[nodes[op.a[0]]->twin]->glue, m.a);
                 note("mac_change");
+            }
+            if ((op.a[2] & 0x80000) && nodes[op.a[0]]->ctx_gen < 255 && nodes[op.a[0]]->twin < 0) { // hot-plug: the interface goes away and comes back; the daemon builds new state under a NEW context pointer
+                Node &x = *nodes[op.a[0]];
+                cur = &x; ledger_tag = 1; handling_base = now; sleep_accum = 0;
+                glue_destroy(x.glue);
+                x.ctx_gen++;
+                x.glue = glue_create(x.cfg.glue, x.ctx(), x.attr.mac.a, x.cfg.side_esp32 ? 1 : 0, x.cfg.side_classifier ? 1 : 0);
+                x.usable = x.glue && glue_usable(x.glue);
+                cur = nullptr; ledger_tag = 0;
+                x.pending.clear(); x.wake_set = false; x.busy_until = 0;
+                note("hotplug_fresh_context");
             }
             if ((op.a[2] & 0x40000) && op.a[3] >= 64 && op.a[3] <= 65536) { // the link's MTU changes in place (same context): the daemon re-sizes its receive buffer
                 for (int which = 0; which < 2; which++) {
